@@ -28,16 +28,20 @@ STUB_C = '''
 void vfstub_mjv_initGeom(void* g, int type, const void* size, const void* pos, const void* mat, const void* rgba) { vf_log_call("mjv_initGeom"); }
 static float vf_alpha[8]; static int vf_ai = 0;
 void vf_set_alpha(int i, float a) { vf_alpha[i] = a; vf_ai = 0; }
+static const float* vf_rgba_base = 0; static long vf_rgba3_off = 0;
+void vf_set_rgba(const float* base, long off) { vf_rgba_base = base; vf_rgba3_off = off; }
+void vfstub_setMaterial(const void* m, char* geom, int matid, const float* rgba, const void* flags) {
+  int i = (int)((rgba - vf_rgba_base) / 4); *(float*)(geom + vf_rgba3_off) = vf_alpha[i]; vf_log_call("setMaterial"); }
 '''
 
 
 def so():
-    if 'so' not in _c: _c['so'] = build.native_lib(['src/engine/engine_vis_visualize.c'], SUP, name='vis', extra_c=STUB_C, redirect=['mjv_initGeom'])
+    if 'so' not in _c: _c['so'] = build.native_lib(['src/engine/engine_vis_visualize.c'], SUP, name='vis', extra_c=STUB_C, redirect=['mjv_initGeom', 'setMaterial'])
     return _c['so']
 
 
 def so_asan():
-    if 'asan' not in _c: _c['asan'] = build.native_lib(['src/engine/engine_vis_visualize.c'], SUP, name='vis_asan', extra_c=STUB_C, redirect=['mjv_initGeom'], sanitize=True)
+    if 'asan' not in _c: _c['asan'] = build.native_lib(['src/engine/engine_vis_visualize.c'], SUP, name='vis_asan', extra_c=STUB_C, redirect=['mjv_initGeom', 'setMaterial'], sanitize=True)
     return _c['asan']
 
 
@@ -150,18 +154,26 @@ def unit_geoms(tier, ngm, maxcap):
         return v
     cand = [z3.And((cat[i] & catmask) != 0, ggsel(grp[i]) != 0) for i in range(ngm)]       # geoms for which a slot is requested
     keep = [z3.And(cand[i], alphas[i] != 0) for i in range(ngm)]
+    import ctypes
+    w.syms += [('alpha%d' % i, 'f32', alphas[i]) for i in range(ngm)]
+    nargs = [('ptr', (M.o, 0)), ('ptr', (D.o, 0)), ('ptr', (V.o, 0)), ('ptr', (P.o, 0)), ('i32', catmask), ('ptr', (sc.S.o, 0))]
+    def pre_(lib, nw):
+        lib.vf_set_alpha.argtypes = [ctypes.c_int, ctypes.c_float]; lib.vf_set_rgba.argtypes = [ctypes.c_void_p, ctypes.c_long]
+        for i_ in range(ngm): lib.vf_set_alpha(i_, float(nw.values.get('alpha%d' % i_, 1.0)))
+        lib.vf_set_rgba(ctypes.c_void_p(nw.addr(M.arrays['geom_rgba'][0])), sc.rgba3)
     for r in res:
         if r.kind != 'return': continue
         pc = r.state.pc
         ng = sc.S.load(ex, r.state, 'ngeom'); stt = sc.S.load(ex, r.state, 'status')
-        ck.prove('addGeomGeoms n=%d: ngeom never exceeds maxgeom' % ngm, pc, z3.And(ng >= sc.ngeom, ng <= sc.maxgeom), site='addGeomGeoms:bounded', decode=dec)
+        rp = W.make_replay(so(), 'addGeomGeoms', w, nargs, outputs=[sc.S.out(ex, r.state, 'ngeom'), sc.S.out(ex, r.state, 'status')], semantics='real', pre=pre_)
+        ck.prove('addGeomGeoms n=%d: ngeom never exceeds maxgeom' % ngm, pc, z3.And(ng >= sc.ngeom, ng <= sc.maxgeom), site='addGeomGeoms:bounded', decode=dec, replay=rp)
         want = sc.ngeom + sum([z3.If(k_, I(1), I(0)) for k_ in keep], I(0))
         room = want <= sc.maxgeom
         # with room for every requested slot: exactly the kept geoms are appended
         slots_needed = sc.ngeom + sum([z3.If(c_, I(1), I(0)) for c_ in cand], I(0))
         ck.prove('addGeomGeoms n=%d: with room, exactly the geoms with enabled (clamped) group, unmasked category and non-zero alpha are appended' % ngm, pc + [slots_needed <= sc.maxgeom], z3.And(ng == want, stt == sc.status),
-                 site='addGeomGeoms:exact', decode=dec)
-        ck.prove('addGeomGeoms n=%d: if a requested slot is unavailable the scene status reports overflow' % ngm, pc + [want > sc.maxgeom], stt == 1, site='addGeomGeoms:overflow-status', decode=dec)
+                 site='addGeomGeoms:exact', decode=dec, replay=rp)
+        ck.prove('addGeomGeoms n=%d: if a requested slot is unavailable the scene status reports overflow' % ngm, pc + [want > sc.maxgeom], stt == 1, site='addGeomGeoms:overflow-status', decode=dec, replay=rp)
         # identity of appended geoms: objid increasing in model order, objtype GEOM
         gso = w.map[sc.geoms].obj
         so_ = r.state.objs[gso]
